@@ -18,7 +18,7 @@ R == CHOOSE r \in Req : TRUE
 
 TraceInit == l = 1 /\ Init
 TReset == /\ Ev("Reset") /\ mark' = FALSE /\ queue' = 0 /\ running' = 0 /\ inflight' = 0
-          /\ pc' = [r \in Req |-> "idle"] /\ dirty' = FALSE /\ flushes' = 0
+          /\ pc' = [r \in Req |-> "idle"] /\ dirty' = FALSE
 TWrite == Ev("Write") /\ Write
 \* one uninterrupted Database.Flush, waited for: Check ; Send ; Mark ; Take ; Finish -- or dropped at the check
 TFlush ==
@@ -26,7 +26,7 @@ TFlush ==
   /\ Quiet
   /\ Line.dropped = mark
   /\ IF mark THEN UNCHANGED vars
-     ELSE dirty' = FALSE /\ flushes' = flushes + 1 /\ UNCHANGED <<mark, queue, running, inflight, pc>>
+     ELSE dirty' = FALSE /\ UNCHANGED <<mark, queue, running, inflight, pc>>
 \* the steps one by one (gated)
 \* the requester stands behind its send (the gate): Again ; Check (not dropped) ; Send as one step
 TSend ==
@@ -36,7 +36,7 @@ TSend ==
   /\ IF MarkBeforeSend
        THEN mark' = TRUE /\ inflight' = inflight + 1 /\ pc' = [pc EXCEPT ![R] = "done"]
        ELSE pc' = [pc EXCEPT ![R] = "sent"] /\ UNCHANGED <<mark, inflight>>
-  /\ UNCHANGED <<running, dirty, flushes>>
+  /\ UNCHANGED <<running, dirty>>
 TTake == Ev("Take") /\ Take
 TFinish == Ev("Finish") /\ Finish
 \* the requester goes on behind the gate: the store of the mark, unless it was stored with the check
